@@ -1827,11 +1827,13 @@ func (ts *Service) handleUpdateTemplate(w http.ResponseWriter, r *http.Request) 
 		// The tasks have been rolled back, restore the template (and its associations) as well
 		// so that a rejected update does not change the template.
 		if original.ID != updated.ID {
-			if rerr := ts.templates.Delete(updated.ID); rerr != nil {
-				ts.diag.Error("failed to remove new template while rolling back template update", rerr, keyvalue.KV("template", updated.ID))
-			}
+			// Restore the old template before the new one is removed: the template must never
+			// be absent under both IDs (each call is a transaction of its own).
 			if rerr := ts.templates.Create(original); rerr != nil {
 				ts.diag.Error("failed to restore template while rolling back template update", rerr, keyvalue.KV("template", original.ID))
+			}
+			if rerr := ts.templates.Delete(updated.ID); rerr != nil {
+				ts.diag.Error("failed to remove new template while rolling back template update", rerr, keyvalue.KV("template", updated.ID))
 			}
 			for _, taskId := range taskIds {
 				if _, gerr := ts.tasks.Get(taskId); gerr != nil {
